@@ -159,8 +159,8 @@ class Check(PropertyCheck):
             "a history of <=24 load/add/clear/option-change/request events with every combination of matching options; "
             "pair cases: two request shapes + one option set. distinct = distinct case; non-trivial = at least one request "
             "served or a pair whose keys are equal for one side only.")
-    budget = {"quick": 2500, "thorough": 60000}
-    time_budget = {"quick": 35, "thorough": 500}
+    budget = {"quick": 1500, "thorough": 60000}
+    time_budget = {"quick": 20, "thorough": 500}
     fingerprints = ["mitmproxy.addons.serverplayback:ServerPlayback._hash",
                     "mitmproxy.addons.serverplayback:ServerPlayback.next_flow",
                     "mitmproxy.addons.serverplayback:ServerPlayback.recompute_hashes",
@@ -172,7 +172,10 @@ class Check(PropertyCheck):
                     "mitmproxy.addons.serverplayback:ServerPlayback.configure"]
     trusted_base = ["hashlib.sha256 and repr() are injective on the key lists built by _hash",
                     "urllib.parse.urlparse/parse_qsl, mitmproxy.net.http.multipart/url decoders, Headers.get"]
-    parallel = True
+    parallel = False
+
+    def setup(self, tier):
+        self.parallel = tier == "thorough"     # a pool only pays off for the long run
 
     # ---------------------------------------------------------------- generation
     M = ["GET", "POST"]; S = ["http", "https"]; H = ["a.com", "b.com"]; P = [80, 8080]; PATH = ["/p", "/q", "/"]
@@ -394,7 +397,7 @@ class Check(PropertyCheck):
                         fails.append(f"event {n}: request {ev[1]} was served recording {i} whose matching key differs")
                     elif i not in pending:
                         fails.append(f"event {n}: recording {i} served although it is not (any more) among the unserved recordings")
-                    elif cand and cand[0] != i:
+                    elif cand and pending.index(cand[0]) < pending.index(i):
                         fails.append(f"event {n}: served recording {i}, but {cand[0]} was recorded earlier with an equal key (reuse={reuse})")
                     if not reuse and i in pending: pending.remove(i)
                 else:
